@@ -186,13 +186,13 @@ def check_one_class(ctx):
         ctx.violate("IOAGREE", site + ":one-class", (fi, st),
                     f"mixed emulsions are detected by `{elt}` instead of the droplet class: classes that share a data layout (PerturbedDroplet3D / PerturbedDroplet3DAxisSym) are written under the first member's class name and read back as that class")
         return
-    arr = [x for x in fv.statements() if isinstance(x, ast.Assign) and "np.array([" in U(x.value)]
+    arr = [x for x in fv.statements() if isinstance(x, ast.Assign) and "np.array([" in U(fv.expand(x.value, x))]
     # the contiguous array is formed by numpy's own dtype discovery: members of one class with different layouts (mode counts)
     # make np.array raise; a forced dtype / astype would silently cast (truncate or broadcast) their amplitudes
     casts = []
     for c in fv.calls():
         nm = (fv.callee(c) or U(c.func)).split(".")[-1]
-        if nm in ("array", "asarray", "fromiter", "stack", "concatenate") and any(g for g in ast.walk(c) if isinstance(g, (ast.ListComp, ast.GeneratorExp)) and U(g.generators[0].iter) == "self") \
+        if nm in ("array", "asarray", "fromiter", "stack", "concatenate") and any(g for g in ast.walk(fv.expand(c, c)) if isinstance(g, (ast.ListComp, ast.GeneratorExp)) and U(g.generators[0].iter) == "self") \
                 and (kwarg(c, "dtype") is not None or len(c.args) > 1):
             casts.append(c)
         if nm == "astype" and isinstance(c.func, ast.Attribute):
@@ -283,6 +283,20 @@ def check_file_modes(ctx, rule="IOAGREE"):
         ctx.decide(not dels, rule, f"{fi.qualname}:fresh", (fi, dels[0] if dels else fi.node), "member writers only create datasets",
                    f"`{U(dels[0])[:60] if dels else ''}` deletes existing entries: the writer is prepared for files that are not truncated")
     return n
+
+
+def check_timecourse_time(ctx):
+    """time attribute of time-course frames: written next to every frame's dataset, read back from there"""
+    m = ctx.model
+    w, r = m.func(f"{EM}.EmulsionTimeCourse.to_file"), m.func(f"{EM}.EmulsionTimeCourse.from_file")
+    wr, rd = attrs_written(view(m, w)), attrs_read(view(m, r))
+    ok = "time" in wr and "time" in rd and U(wr["time"][0].value) == "time"
+    ctx.decide(ok, "IOAGREE", "EmulsionTimeCourse:attrs[time]", (w, wr["time"][0]) if "time" in wr else w, "every frame's time is stored next to its dataset and read from there",
+               "the frame time is not written to / read from dataset.attrs['time'] for every frame (an empty frame must carry its time as well)")
+    rv = view(m, r)
+    ap = [c for c in rv.calls() if isinstance(c.func, ast.Attribute) and c.func.attr == "append" and kwarg(c, "time") is not None]
+    oka = len(ap) == 1 and U(rv.expand(kwarg(ap[0], "time"), ap[0], stop=("dataset",))) == "dataset.attrs['time']" and U(rv.expand(ap[0].args[0], ap[0], stop=("dataset",))) == "Emulsion._from_hdf_dataset(dataset)"
+    ctx.decide(oka, "IOAGREE", "EmulsionTimeCourse:reader", (r, ap[0]) if ap else r, "each frame is appended with its stored time", "frames are not appended as (Emulsion._from_hdf_dataset(dataset), time=dataset.attrs['time'])")
 
 
 def check_time_column(ctx):
